@@ -39,7 +39,7 @@ def well_conditioned(rng, m, n):
     return J
 
 
-def one(ctx: Ctx, spec, dtype, dependent=False):
+def one(ctx: Ctx, spec, dtype, dependent=False, disjoint=False):
     rng = ctx.rng
     m = max(spec.min_rows, rng.choice([2, 3, 4]))
     n = rng.choice([m, m + 1, m + 2]) if (spec.pinv or spec.solver or spec.ties) else rng.choice([2, 3, 5])
@@ -49,6 +49,15 @@ def one(ctx: Ctx, spec, dtype, dependent=False):
         m = max(m, 3)
         J = dependent_rows(rng, m, rng.choice([m - 1, m, m + 2]))
         ctx.count("family", f"{spec.name}:dependent-rows")
+    elif spec.gramian and not spec.pinv and not spec.ties and (disjoint or rng.random() < 0.25):
+        # rows with disjoint supports: no two rows conflict and some inner products are EXACTLY zero; after an orthogonal
+        # change of coordinates they are +-1e-17 — nothing may depend on the sign of such an entry
+        m = max(m, 2)
+        n = m + rng.choice([0, 1, 2])
+        J = [[Fr(0)] * n for _ in range(m)]
+        for c in range(n):
+            J[c % m][c] = Fr(rng.randint(1, 6))
+        ctx.count("family", f"{spec.name}:disjoint-supports")
     elif spec.pinv or spec.solver or spec.ties or rng.random() < 0.5:
         J = well_conditioned(rng, m, max(n, m))
     else:
@@ -63,8 +72,17 @@ def one(ctx: Ctx, spec, dtype, dependent=False):
             pv = [rng.choice([-2, -1, 1, 2, 3]) for _ in range(m)]
     A = spec.make(m, dtype, pv)
     seed = rng.randrange(10 ** 6)
+    if spec.name == "Krum":
+        # exact (or nearly exact) score ties are excluded by the property: the selection then depends on index order
+        D = torch.cdist(Jt.double(), Jt.double(), compute_mode="donot_use_mm_for_euclid_dist")
+        sc = D.topk(k=m - 1 - 2 + 1, largest=False).values[:, 1:].sum(dim=1).sort().values
+        if float(sc[1] - sc[0]) < 1e-6 * max(float(sc[0]), 1e-300):
+            ctx.count("skipped_low_margin", "Krum: score tie")
+            return
     st, x = attempt(A, Jt, seed)
     tol = (2e-3 if dtype == torch.float32 else 1e-8) * (30 if (spec.solver or spec.pinv) else 1)
+    if spec.solver:
+        tol = max(tol, 2.5e-5)       # the conic solver's own stopping tolerance (a kernel): observed 1.3e-5 on exactly orthogonal rows
     rp = {"aggregator": spec.name, "pref": str(pv), "J": [[str(v) for v in r] for r in J], "dtype": str(dtype), "torch_seed": seed}
     ctx.case((spec.name, str(J), str(pv), str(dtype)), nontrivial=True,
              sample={"aggregator": spec.name, "J": [[str(v) for v in r] for r in J], "pref": str(pv)})
@@ -302,6 +320,9 @@ def main(ctx: Ctx):
             one(ctx, spec, torch.float64 if i % 3 else torch.float32)
             if spec.pinv and not spec.solver:
                 one(ctx, spec, torch.float64 if i % 2 else torch.float32, dependent=True)
+            if spec.solver:
+                for _ in range(3):
+                    one(ctx, spec, torch.float64, disjoint=True)
             if i % 6 == 0 and spec.name != "GradDrop":
                 many_zero_columns(ctx, spec)
             if i % 2 == 0:
